@@ -141,6 +141,32 @@ class Values:
 PRIM = {"i16": "<h", "u16": "<H", "i32": "<i", "u32": "<I", "f32": "<f", "f64": "<d"}
 
 
+class StartZeroValues(Values):
+    """one chosen float32 id (a header scalar such as the start time) is +0.0 or -0.0"""
+
+    def __init__(self, r, vid, negative):
+        Values.__init__(self, r, specials=False)
+        val = np.float32(-0.0 if negative else 0.0)
+        self.f[("f32", vid)] = val
+        self.fr[("f32", val.tobytes())] = vid
+
+
+class FreshTextValues(Values):
+    """every text carries a salt, so that the library meets it for the first time"""
+
+    def __init__(self, r, salt):
+        Values.__init__(self, r, specials=False)
+        self.salt = salt
+
+    def text(self, vid, width):
+        key = (width, vid)
+        if key not in self.t:
+            s = f"T{vid}~{self.salt}"[: width - 1]
+            self.t[key] = s
+            self.tr[(width, s)] = vid
+        return self.t[key]
+
+
 class ExoticValues(Values):
     """float32 samples that are not ordinary numbers: +-inf and isolated NaN components.  What the
     library makes of such a frame (present or missing) is not fixed by any property, only that the
